@@ -1,6 +1,7 @@
 package cli
 
 import (
+	"errors"
 	"github.com/jotaen/klog/klog"
 	"github.com/jotaen/klog/klog/app"
 	"github.com/jotaen/klog/klog/app/cli/util"
@@ -50,10 +51,15 @@ func (opt *Stop) Run(ctx app.Context) app.Error {
 		},
 
 		func(reconciler *reconciling.Reconciler) error {
+			endTime := time
 			if shouldTryYesterday && reconciler.Record.Date().IsEqualTo(yesterday) {
-				time, _ = time.Plus(klog.NewDuration(24, 0))
+				shiftedTime, sErr := time.Plus(klog.NewDuration(24, 0))
+				if sErr != nil {
+					return errors.New("The current time cannot be shifted to yesterday’s record; please specify a time value explicitly")
+				}
+				endTime = shiftedTime
 			}
-			return reconciler.CloseOpenRange(time, opt.TimeFormat(ctx.Config()), opt.Summary)
+			return reconciler.CloseOpenRange(endTime, opt.TimeFormat(ctx.Config()), opt.Summary)
 		},
 	)
 }
